@@ -1297,7 +1297,8 @@ def _apply_solver_cfg(om, model, gobj, cfg):
         if kind == 'direct_asm':
             return om.DirectSolver(assemble_jac=True, rhs_checking=rc)
         if kind == 'krylov':
-            s = om.ScipyKrylov(assemble_jac=bool(cfg.get('jac')), rhs_checking=rc)
+            s = om.ScipyKrylov(assemble_jac=bool(cfg.get('jac')) and cfg.get('krylov_assemble', True),
+                              rhs_checking=rc)
             # relative tolerance only: generated models can have derivative seeds far below any fixed
             # absolute tolerance (gmres returns x0 = 0 at once when |b| < atol)
             s.options['atol'] = 1e-200
